@@ -44,7 +44,7 @@ def _p(level, worlds, explanation, kani=(), scans=(), drivers=(), trusted=None, 
 
 
 PROPS = {
-    "C01": _p("proof", ["regions"],
+    "C01": _p("proof", ["regions", "index"],
               "push/index contracts (rd(push(x)) == val(x)) proved per region and generically for wrappers; accessors of read items proved exact."),
     "C02": _p("proof", ["regions", "index"],
               "frame clause of every push contract (all previously issued indices keep their value) plus whole-view append postconditions of the index containers; lemma_frame_star lifts it to histories.",
@@ -52,7 +52,7 @@ PROPS = {
     "C03": _p("proof", ["regions", "regions+failstop", "index", "index+failstop"],
               "FlatStack::{default,with_capacity,copy,get,len,is_empty,reserve,clear} proved against an abstract Seq view for every region R and index container S satisfying the trait contracts; get is fail-stop.",
               trusted=REGION_TRUSTED + FAILSTOP_TRUSTED, dropped=REGION_DROPPED + INDEX_DROPPED),
-    "C04": _p("proof", ["regions"],
+    "C04": _p("proof", ["regions", "index"],
               "the unsafe call's safety precondition valid_utf8 is discharged from StringRegion's `issued` predicate; every accepted push form establishes it; wrappers only hand the inner region indices it issued.",
               scans=["string_write_paths_closed"]),
     "C05": _p("proof", ["index"],
@@ -66,9 +66,9 @@ PROPS = {
               dropped=REGION_DROPPED + INDEX_DROPPED),
     "C11": _p("proof", ["regions"],
               "CollapseSequence::push collapses exactly when the last index is Some(l) and the item equals the item at l (then the inner region is untouched); clear/default forget the last index."),
-    "C12": _p("proof", ["regions"],
+    "C12": _p("proof", ["regions", "index"],
               "ConsecutiveIndexPairs returns 0,1,2,... (r == number of items so far) and index(k) reads the k-th pair of adjacent offsets, for every dense inner region and offset container; ColumnsRegion::index returns exactly row k."),
-    "C13": _p("proof", ["regions", "regions+failstop", "index+failstop"],
+    "C13": _p("proof", ["regions", "regions+failstop", "index", "index+failstop"],
               "positional accessors proved in two readings of the same bodies: total (i < len: no panic, i-th element of this item) and fail-stop (returns only for i < len).",
               trusted=REGION_TRUSTED + FAILSTOP_TRUSTED, dropped=REGION_DROPPED + INDEX_DROPPED),
     "C19": _p("proof", ["index", "regions"],
@@ -109,6 +109,18 @@ CEX = {
     "index.Stride::index#": "stride_index_contract",
     "slice.ReadSliceInner::get": "slice_get_oob",
     "slice.ReadSlice::get": "slice_get_oob",
+    "index.IndexList": "index_containers",
+    "index.IndexOptimized": "index_containers",
+    "index.Vec": "index_containers",
+    "storage.Vec": "index_containers",
+    "lib.FlatStack": "flatstack_sequence",
+    "deduplicate.CollapseSequence": "collapse_boundaries",
+    "deduplicate.ConsecutiveIndexPairs": "string_compositions",
+    "string.StringRegion": "string_compositions",
+    "slice_owned.OwnedRegion": "clear_twin",
+    "columns.": "columns_ragged",
+    "result.ResultRegion": "fanout_roundtrip",
+    "slice.SliceRegion": "slice_roundtrip",
 }
 
 
